@@ -205,6 +205,10 @@ ExecIns(D, st, ins) ==
          IF ins.n \notin DOMAIN st.data \/ ExprErr(st.data, ins.e[1])
          THEN [st |-> Enq(st, ErrorExecution), ok |-> FALSE]
          ELSE [st |-> [st EXCEPT !.data[ins.n] = ExprVal(st.data, ins.e[1])], ok |-> TRUE]
+    [] ins.op = "send" ->          \* <send target="#_internal">: static event, or eventexpr = e[1]
+         IF ins.e # <<>> /\ ExprErr(st.data, ins.e[1])
+         THEN [st |-> Enq(st, ErrorExecution), ok |-> FALSE]
+         ELSE [st |-> Enq(st, ins.ev), ok |-> TRUE]
     [] ins.op \in {"log", "script"} ->
          IF ExprErr(st.data, ins.e[1])
          THEN [st |-> Enq(st, ErrorExecution), ok |-> FALSE]
@@ -222,6 +226,8 @@ ExecIns(D, st, ins) ==
              r == R[Len(ins.br)]
          IN IF r.done \/ ins.els = 0 THEN [st |-> r.st, ok |-> r.ok]
             ELSE ExecSeq(D, r.st, D.blocks[ins.els])
+    [] ins.op = "foreach" /\ ins.e # <<>> ->     \* array expression fails or is not a collection
+         [st |-> Enq(st, ErrorExecution), ok |-> FALSE]
     [] ins.op = "foreach" ->
          LET R[i \in 0..Len(ins.arr)] ==
                IF i = 0 THEN [st |-> st, ok |-> TRUE]
